@@ -193,6 +193,9 @@ impl Module for M {
                 }
                 let bb = e.bounding_box();
                 let pts: Vec<Point> = e.points().collect();
+                if pts.len() <= 400 {
+                    iter_protocol_check(ctx, "iterator-protocol:ellipse-points", e.points(), 400);
+                }
                 let m = 3i32;
                 let (x0, y0) = (tl.x - m, tl.y - m);
                 let (x1, y1) = (tl.x + w as i32 + m, tl.y + h as i32 + m);
